@@ -316,7 +316,7 @@ class Lab:
             return W
 
         def run(W):
-            env = {"f": F.sym("f"), "name": F.sym("name"), "matrix": W.matrix, "digits": F.sym("digits"), "endian": F.sym("endian"), "form": F.sym("form")}
+            env = {"f": F.sym("f"), "name": F.sym("name"), "matrix": W.matrix, "fmt": F.sym("digits" if enc == "ascii" else "endian"), "form": F.sym("form")}
             ev = S.run_method(W, "self." + WRITERS[(enc, layout)], env)
             wr = WRun(enc, layout, kind, cplx, None, W, ev)
             # the loader is evaluated in the same regime: a comparison it cannot decide splits the regime for both
